@@ -32,7 +32,18 @@ type version struct {
 	id      string
 	cluster string
 	names   []string
-	tls     string // "" = the cluster's usual material (a, b: certificate+key+client CA; x: none); "ca" = client CA only; "cert" = certificate+key only; "none"
+	tls     string // "" = the cluster's usual material (a, b: certificate+key+client CA; x: none); "ca" = client CA only; "cert" = certificate+key only; "none"; "renew" = usual material with the certificate renewed under the SAME key
+}
+
+// which serving certificate a version carries (nil: none)
+func (v *version) certDER() []byte {
+	if c, _ := v.shape(); !c {
+		return nil
+	}
+	if v.tls == "renew" {
+		return mat[v.cluster].RenewedCertDER
+	}
+	return mat[v.cluster].CertDER
 }
 
 // shape of the TLS material a version carries: which of {serving certificate, client CA} it sets
@@ -42,7 +53,7 @@ func (v *version) shape() (cert, ca bool) {
 	}
 	_, has := mat[v.cluster]
 	switch v.tls {
-	case "":
+	case "", "renew":
 		return has, has
 	case "ca":
 		return false, true
@@ -55,7 +66,7 @@ func (v *version) shape() (cert, ca bool) {
 // the second search varies the SHAPE of the TLS material (partial material is legal: a cluster may bring only a
 // client CA, or only a serving certificate) over a smaller name alphabet
 var tlsVersions = []version{
-	{"a[x]", "a", []string{"x"}, ""}, {"a(ca)[x]", "a", []string{"x"}, "ca"}, {"a(cert)[x]", "a", []string{"x"}, "cert"}, {"a(none)[x]", "a", []string{"x"}, "none"}, {"a(ca)", "a", nil, "ca"},
+	{"a[x]", "a", []string{"x"}, ""}, {"a(ca)[x]", "a", []string{"x"}, "ca"}, {"a(cert)[x]", "a", []string{"x"}, "cert"}, {"a(none)[x]", "a", []string{"x"}, "none"}, {"a(ca)", "a", nil, "ca"}, {"a(renew)[x]", "a", []string{"x"}, "renew"},
 	{"b[y]", "b", []string{"y"}, ""}, {"b(ca)[x]", "b", []string{"x"}, "ca"}, {"b(cert)[Y,z]", "b", []string{"Y", "z"}, "cert"}, {"x", "x", nil, ""},
 }
 
@@ -74,6 +85,9 @@ func (v version) object() *proxyv1alpha1.UpstreamCluster {
 	if cert, ca := (&v).shape(); cert || ca {
 		if cert {
 			o.Spec.SecureServing.CertData, o.Spec.SecureServing.KeyData = m.CertPEM, m.KeyPEM
+			if v.tls == "renew" {
+				o.Spec.SecureServing.CertData = m.RenewedCertPEM
+			}
 		}
 		if ca {
 			o.Spec.SecureServing.ClientCAData = m.CAPEM
@@ -307,7 +321,7 @@ func (s *sys) tlsShape(ci *clusters.ClusterInfo) (cert, ca, judged bool) {
 	l, a := s.latest[ci.Cluster], s.applied[ci.Cluster]
 	lc, la := l.shape()
 	ac, aa := a.shape()
-	if l == nil || a == nil || s.pendingV[ci.Cluster] != nil || lc != ac || la != aa {
+	if l == nil || a == nil || s.pendingV[ci.Cluster] != nil || lc != ac || la != aa || !bytes.Equal(l.certDER(), a.certDER()) {
 		return false, false, false
 	}
 	return lc, la, true
@@ -336,8 +350,8 @@ func (s *sys) checkTLS(res map[string]*clusters.ClusterInfo) error {
 			}
 			continue
 		}
-		if wantCert && (len(cfg.Certificates) != 1 || !bytes.Equal(cfg.Certificates[0].Certificate[0], m.CertDER)) {
-			return fmt.Errorf("wrong-serving-certificate: host %q is served by cluster %q but the handshake does not present that cluster's certificate", sni, ci.Cluster)
+		if wantCert && (len(cfg.Certificates) != 1 || !bytes.Equal(cfg.Certificates[0].Certificate[0], s.applied[ci.Cluster].certDER())) {
+			return fmt.Errorf("wrong-serving-certificate: host %q is served by cluster %q but the handshake does not present that cluster's current certificate (a renewal under the same key counts)", sni, ci.Cluster)
 		}
 		if !wantCert && len(cfg.Certificates) != 0 {
 			return fmt.Errorf("foreign-serving-certificate: host %q is served by cluster %q, which brings no certificate, but the handshake presents one that is not the gateway's default", sni, ci.Cluster)
